@@ -133,7 +133,13 @@ def tasks_c05(tier, seed):
 
 
 def tasks_c07(tier, seed):
-    return seq("c07", tier, shards=4) + seq("c04", tier, shards=8) + seq("c08", tier, shards=8)
+    ts = seq("c07", tier, shards=4) + seq("c04", tier, shards=8) + seq("c08", tier, shards=8)
+    # two handlers on different workers sending timeout pre-responses at the same time
+    if tier == "quick":
+        ts += explore("T1", CFG_DEFAULT, 2, shards=4, timeout="100s")
+    else:
+        ts += explore("T1", CFG_DEFAULT, 3, shards=8, timeout="5m") + explore("T1", "w3-in1-literal-mount", 2, shards=8, timeout="5m")
+    return ts
 
 
 def tasks_c08(tier, seed):
@@ -269,6 +275,7 @@ def tasks_c16(tier, seed):
     # life-cycle races: double Shutdown, double Serve, Shutdown during the start-up of Serve
     ts += explore("S9", w1, b, race=True, shards=2, timeout=to) + explore("S10", CFG_DEFAULT, 2, race=True, timeout=to) + explore("S11", CFG_DEFAULT, 2, race=True, timeout=to)
     ts += explore("S12", w1, b, race=True, shards=2, timeout=to)
+    ts += explore("T1", CFG_DEFAULT, b, race=True, shards=2, timeout=to) + explore("Q8", CFG_DEFAULT, b, race=True, shards=2, timeout=to)
     ts += STORE_RACE_TASKS(tier)
     ts += SH_TASKS(tier, race=True)
     return ts
